@@ -296,6 +296,7 @@ func runC12(c *core.Ctx) {
 	c.Floor("C12/validator-results-used", 10)
 	c.Floor("C12/no-shared-append-base", 2)
 	c12ShuffleKeyPerValidator(c)
+	c12OneRemovalPerRequest(c)
 }
 
 // c12ShuffleKeyPerValidator: shuffleList identifies each validator by the hash of its key and the
@@ -439,4 +440,62 @@ func checkValidatorResultsUsed(c *core.Ctx, rule string, cone []*ssa.Function) {
 var discardAllowed = map[string]string{
 	"removeLeavingNodesNotExistingInEligibleOrWaiting#1": "the second result lists leaving keys unknown to both maps; they are intentionally ignored",
 	"removeValidatorsFromList#1":                         "the second result is the list of removed entries, informational",
+}
+
+
+// c12OneRemovalPerRequest: removeValidatorsFromList takes one occurrence out of the list for every
+// entry of the request (and never more than maxToRemove in all): after a removal the search loop
+// over the list is left - there is no way from the removal back to the head of that loop without
+// leaving it. A search that goes on removes every validator with that key for one request, and the
+// callers' per-occurrence bookkeeping (what is still leaving, how many may still be removed) no
+// longer matches the lists.
+func c12OneRemovalPerRequest(c *core.Ctx) {
+	fn := anchorF(c, "sharding", "removeValidatorsFromList")
+	if fn == nil {
+		return
+	}
+	n := 0
+	core.Instrs(fn, func(in ssa.Instruction) {
+		cc := core.CallOf(in)
+		if cc == nil || cc.StaticCallee() == nil || cc.StaticCallee().Name() != "removeValidatorFromList" {
+			return
+		}
+		// the search loop: the innermost loop around the test that guards the removal (a removal
+		// followed by `break` is not itself part of that loop's body)
+		var l *core.Loop
+		for d := in.Block(); d != nil && l == nil; d = d.Idom() {
+			if _, isIf := d.Instrs[len(d.Instrs)-1].(*ssa.If); isIf && d != in.Block() {
+				l = core.InnermostLoop(fn, d)
+			}
+		}
+		if l == nil {
+			return
+		}
+		n++
+		// can the head of the search loop be reached again from the removal without leaving the loop?
+		seen := map[*ssa.BasicBlock]bool{}
+		work := []*ssa.BasicBlock{in.Block()}
+		again := false
+		for len(work) > 0 {
+			b := work[0]
+			work = work[1:]
+			for _, s := range b.Succs {
+				if !l.Body[s] {
+					continue
+				}
+				if s == l.Header {
+					again = true
+					continue
+				}
+				if !seen[s] {
+					seen[s] = true
+					work = append(work, s)
+				}
+			}
+		}
+		c.Check(!again, "C12/one-removal-per-request", fmt.Sprintf("removeValidatorsFromList/removal#%d", n), in.Pos(),
+			"the search loop is left after a removal",
+			"after removing a validator the search over the list goes on: one requested entry removes every validator with that key (and more than maxToRemove in all), so a validator is taken out of a list while the bookkeeping still counts it")
+	})
+	c.Floor("C12/one-removal-per-request", 1)
 }
